@@ -193,10 +193,14 @@ def t14(repo, res, canon, logic):
                 tn, tp = e.node, e.pol
                 while isinstance(tn, ast.UnaryOp) and isinstance(tn.op, ast.Not):
                     tn, tp = tn.operand, not tp
-                if isinstance(tn, ast.Compare) and len(tn.ops) == 1 and canon.c(tn.left, rfr) == 'Scheduler.status':
-                    eq = isinstance(tn.ops[0], (ast.Is, ast.Eq))
-                    if eq != tp:           # raises when status differs from the comparator
-                        need = canon.c(tn.comparators[0], rfr)
+                if isinstance(tn, ast.Compare) and len(tn.ops) == 1 and isinstance(tn.ops[0], (ast.Is, ast.IsNot, ast.Eq, ast.NotEq)):
+                    l_, r_ = canon.c(tn.left, rfr), canon.c(tn.comparators[0], rfr)
+                    if r_ == 'Scheduler.status':
+                        l_, r_ = r_, l_          # (operands in either order)
+                    if l_ == 'Scheduler.status':
+                        eq = isinstance(tn.ops[0], (ast.Is, ast.Eq))
+                        if eq != tp:           # raises when status differs from the comparator
+                            need = r_
             if e.kind in ('loop',):
                 break
     st = repo.func('Scheduler.start')
